@@ -93,17 +93,22 @@ func (consumersSuite) Nontrivial(tags map[string]int) bool { return tags["tick"]
 
 type flushRecorder struct {
 	*httptest.ResponseRecorder
-	mu    sync.Mutex
-	first chan []byte
-	sent  bool
+	mu     sync.Mutex
+	chunks chan []byte
+	n      int
 }
 
 func (f *flushRecorder) Write(b []byte) (int, error) {
 	f.mu.Lock()
-	defer f.mu.Unlock()
-	if !f.sent {
-		f.sent = true
-		f.first <- append([]byte(nil), b...)
+	f.n++
+	n := f.n
+	f.mu.Unlock()
+	if n <= 3 {
+		time.Sleep(1500 * time.Microsecond) // a slow listener: later records queue up behind the one being written
+	}
+	select {
+	case f.chunks <- append([]byte(nil), b...):
+	default:
 	}
 	return len(b), nil
 }
@@ -127,7 +132,20 @@ func (consumersSuite) Run(h map[string]string, ops []string) []string {
 		FallbackConfig: rolling.FallbackStatsConfig{Now: constNow, RollingStatsDuration: time.Duration(getI(h, "dur", 10_000_000_000)), RollingStatsNumBuckets: int(getI(h, "n", 10))},
 	}
 	sc := &sloCounter{}
-	slof := &responsetimeslo.Factory{Config: responsetimeslo.Config{MaximumHealthyTime: time.Duration(getI(h, "slo", 250_000_000))},
+	// the healthy time is layered: a factory-wide value, a general constructor appended first, a per-circuit constructor
+	// appended LAST (the last one appended has the highest precedence) — only the per-circuit one carries the value
+	// the case is about
+	sloV := time.Duration(getI(h, "slo", 250_000_000))
+	slof := &responsetimeslo.Factory{Config: responsetimeslo.Config{MaximumHealthyTime: sloV*7 + 3},
+		ConfigConstructor: []func(string) responsetimeslo.Config{
+			func(string) responsetimeslo.Config { return responsetimeslo.Config{MaximumHealthyTime: sloV*10 + 1} },
+			func(name string) responsetimeslo.Config {
+				if name == "c" {
+					return responsetimeslo.Config{MaximumHealthyTime: sloV}
+				}
+				return responsetimeslo.Config{}
+			},
+		},
 		CollectorConstructors: []func(string) responsetimeslo.Collector{func(string) responsetimeslo.Collector { return sc }}}
 	statCtor := sf.CreateConfig
 	if h["coll"] == "run" {
@@ -139,6 +157,7 @@ func (consumersSuite) Run(h map[string]string, ops []string) []string {
 	}
 	mgr := &circuit.Manager{DefaultCircuitProperties: []circuit.CommandPropertiesConstructor{statCtor, slof.CommandProperties}}
 	e := newCenvWith(h, mgr)
+	mgr.MustCreateCircuit("d") // an idle sibling: its stream records must stay empty and never replace the other's
 	rs, fs := sf.RunStats("c"), sf.FallbackStats("c")
 	var tracker *responsetimeslo.Tracker
 	for _, m := range e.c.CmdMetricCollector {
@@ -214,26 +233,60 @@ func (consumersSuite) Run(h map[string]string, ops []string) []string {
 				go func() { _ = es.Start() }()
 				ctx, cancel := context.WithCancel(context.Background())
 				req := httptest.NewRequest(http.MethodGet, "/hystrix.stream", nil).WithContext(ctx)
-				rw := &flushRecorder{ResponseRecorder: httptest.NewRecorder(), first: make(chan []byte, 1)}
+				rw := &flushRecorder{ResponseRecorder: httptest.NewRecorder(), chunks: make(chan []byte, 64)}
 				done := make(chan struct{})
 				go func() { es.ServeHTTP(rw, req); close(done) }()
-				var data []byte
-				select {
-				case data = <-rw.first:
-				case <-time.After(5 * time.Second):
+				// gather records until both circuits ("c" under test, "d" idle) have been seen
+				recs := map[string][]byte{}
+				deadline := time.After(5 * time.Second)
+			gather:
+				for len(recs) < 2 {
+					select {
+					case chunk := <-rw.chunks:
+						for _, line := range strings.Split(string(chunk), "\n") {
+							line = strings.TrimSpace(line)
+							if !strings.HasPrefix(line, "data:") {
+								continue
+							}
+							var probe struct{ Name string }
+							body := strings.TrimSpace(strings.TrimPrefix(line, "data:"))
+							if json.Unmarshal([]byte(body), &probe) != nil {
+								cancel()
+								<-done
+								_ = es.Close()
+								return "stream-bad-json"
+							}
+							if _, seen := recs[probe.Name]; !seen {
+								recs[probe.Name] = []byte(body)
+							}
+						}
+					case <-deadline:
+						break gather
+					}
 				}
 				cancel()
 				<-done
 				_ = es.Close()
+				data := recs["c"]
 				if data == nil {
-					return "stream-timeout"
+					if len(recs) == 0 {
+						return "stream-timeout"
+					}
+					return "stream-no-record-for-the-circuit"
+				}
+				if other, ok := recs["d"]; ok {
+					var z struct{ RequestCount, CountSuccess, CountFailure, CountShortCircuited int64 }
+					if json.Unmarshal(other, &z) != nil || z.RequestCount+z.CountSuccess+z.CountFailure+z.CountShortCircuited != 0 {
+						return "stream-record-of-the-idle-circuit-is-not-empty"
+					}
+				} else {
+					return "stream-no-record-for-the-idle-circuit"
 				}
 				if lastPartial {
 					return "stream-ok" // produced without incident; its time base is the wall clock, so the fields are not compared
 				}
 				var rec map[string]interface{}
-				body := strings.TrimSpace(strings.TrimPrefix(strings.TrimSpace(string(data)), "data:"))
-				if err := json.Unmarshal([]byte(body), &rec); err != nil {
+				if err := json.Unmarshal(data, &rec); err != nil {
 					return "stream-bad-json"
 				}
 				gi := func(k string) int64 {
